@@ -1105,6 +1105,13 @@ def fixed_cases(tier):
     out.append(C([L("glob"), E("v1", 2, of=dict(n="fwd", q=None)), CR("loc"), CD("loc"), R("v1"), L("fwd")]))
     # the manual's named example: the same $$loop on both sides of a label
     out.append(C([T("loop"), TR("loop"), L("split"), T("loop"), TR("loop")]))
+    # FORWARD and the spelling of the reference: in pass 1 a reference to an announced name must not find the outer
+    # symbol of that name, however it is spelled (outside -U).  The outer value does not fit a data word: bound to it,
+    # the reference is refused in pass 1
+    for cpu in sorted(sm.CPUS):
+        out.append(C([E("big", 70000), S("s", [dict(k="fwd", n="big"), R("Big"), R("big"), R("BIG"), E("big", 5), R("bIG")])],
+                     cpu=cpu))
+        out.append(C([E("BIG", 70000), S("outer", [S("s", [dict(k="fwd", n="Big"), R("big"), L("Big"), R("BIG")])])], cpu=cpu))
     # regression: FORWARD does not redirect references that carry a section
     out.append(C([E("val", 0x2000, "set"),
                   S("s", [dict(k="fwd", n="val"), dict(k="pushv", s="", a=[dict(n="val", q="")]),
